@@ -233,7 +233,7 @@ Definition letters (t : table) : list letter :=
 
 Definition alphabet : list letter :=
   [K "CREATE"; K "TABLE"; G; LDot; LStr; LPl; RPl; CMl; K "NOT"; K "NULL"; K "DEFAULT"; K "PRIMARY"; K "KEY"; K "UNIQUE";
-   K "REFERENCES"; K "ON"; K "DELETE"; K "UPDATE"] ++ name_letters ++ colname_letters.
+   K "REFERENCES"; K "ON"; K "DELETE"; K "UPDATE"; K "CONSTRAINT"; K "FOREIGN"] ++ name_letters ++ colname_letters.
 
 (* ---------- the reference machine F ---------------------------------------------------------------------------------- *)
 Inductive ctx := First | Later.
@@ -274,7 +274,14 @@ Definition pend_reds (p : pend) : list string :=
 Definition close_red (c : ctx) : string :=
   match c with First => "expr -> table_name LP defcolumn" | Later => "expr -> expr COMMA defcolumn" end.
 
+(* which table-level column list is being read: PRIMARY KEY / UNIQUE / FOREIGN KEY / the referenced columns (named by CONSTRAINT?) *)
+Inductive tk := TkPk (named : bool) | TkUq (named : bool) | TkFk (named : bool) | TkRef (named : bool).
+
 Inductive q :=
+| TPK0 (n : bool) | TPK1 (n : bool) | TUQ0 (n : bool) | TCN0 | TCN1 | TFK0 (n : bool) | TFK1 (n : bool)
+| TP0 (k : tk) | TP1 (k : tk) | TPn (k : tk) | TPm (k : tk) | TPEnd (k : tk)
+| TFR0 (n : bool) | TFR1 (n : bool) | TFRD (n : bool) | TFR2 (n : bool)
+| TRON (n : bool) (upd_only : bool) | TROD (n : bool) | TROU (n : bool) | TRDel (n : bool) | TRUpd (n : bool)
 | T0 | T1 | T2 | N1 | ND | N2 | END
 | C0 (c : ctx) | C1 (c : ctx)
 | SZ0 (c : ctx) (two : bool) | SZ1 (c : ctx) | SZ2 (c : ctx) | SZ3 (c : ctx)
@@ -290,8 +297,15 @@ Definition pend_eqb (a b : pend) : bool :=
   | PRefUpd, PRefUpd | PRefNull, PRefNull | PRefNotNull, PRefNotNull => true
   | _, _ => false
   end.
+Definition tk_eqb (a b : tk) : bool :=
+  match a, b with TkPk x, TkPk y | TkUq x, TkUq y | TkFk x, TkFk y | TkRef x, TkRef y => Bool.eqb x y | _, _ => false end.
 Definition q_eqb (a b : q) : bool :=
   match a, b with
+  | TCN0, TCN0 | TCN1, TCN1 => true
+  | TPK0 x, TPK0 y | TPK1 x, TPK1 y | TUQ0 x, TUQ0 y | TFK0 x, TFK0 y | TFK1 x, TFK1 y | TFR0 x, TFR0 y | TFR1 x, TFR1 y
+  | TFRD x, TFRD y | TFR2 x, TFR2 y | TROD x, TROD y | TROU x, TROU y | TRDel x, TRDel y | TRUpd x, TRUpd y => Bool.eqb x y
+  | TRON x u, TRON y v => Bool.eqb x y && Bool.eqb u v
+  | TP0 x, TP0 y | TP1 x, TP1 y | TPn x, TPn y | TPm x, TPm y | TPEnd x, TPEnd y => tk_eqb x y
   | T0, T0 | T1, T1 | T2, T2 | N1, N1 | ND, ND | N2, N2 | END, END => true
   | C0 x, C0 y | C1 x, C1 y | SZ1 x, SZ1 y | SZ2 x, SZ2 y | SZ3 x, SZ3 y | NOT0 x, NOT0 y | D0 x, D0 y | PK0 x, PK0 y
   | R0 x, R0 y | RD x, RD y | RC0 x, RC0 y | RC1 x, RC1 y | RON x, RON y | ROD x, ROD y | ROU x, ROU y | RNOT x, RNOT y => ctx_eqb x y
@@ -303,13 +317,17 @@ Lemma ctx_eqb_eq a b : ctx_eqb a b = true -> a = b.
 Proof. destruct a, b; simpl; congruence. Qed.
 Lemma pend_eqb_eq a b : pend_eqb a b = true -> a = b.
 Proof. destruct a, b; simpl; congruence. Qed.
+Lemma tk_eqb_eq a b : tk_eqb a b = true -> a = b.
+Proof. destruct a, b; simpl; try congruence; intro H; apply Bool.eqb_prop in H; congruence. Qed.
 Lemma q_eqb_eq a b : q_eqb a b = true -> a = b.
 Proof.
   destruct a, b; simpl; try congruence; intro H;
-    try (apply ctx_eqb_eq in H; congruence);
-    apply andb_true_iff in H; destruct H as [H1 H2]; apply ctx_eqb_eq in H1.
-  - apply Bool.eqb_prop in H2. congruence.
-  - apply pend_eqb_eq in H2. congruence.
+    first [ apply ctx_eqb_eq in H; congruence
+          | apply tk_eqb_eq in H; congruence
+          | apply Bool.eqb_prop in H; congruence
+          | apply andb_true_iff in H; destruct H as [H1 H2];
+            first [ apply ctx_eqb_eq in H1; first [apply Bool.eqb_prop in H2; congruence | apply pend_eqb_eq in H2; congruence]
+                  | apply Bool.eqb_prop in H1; apply Bool.eqb_prop in H2; congruence ] ].
 Qed.
 
 Definition isl (l m : letter) : bool := letter_eqb l m.
@@ -326,6 +344,24 @@ Definition opt_start (c : ctx) (ps : list string) (l : letter) : option (fout * 
   else if isl l RPl then Some (((ps ++ [close_red c])%list, "RP", Upper), END)
   else None.
 
+Definition tcons_reds : list string := ["id -> ID"; "constraint -> CONSTRAINT id"].
+Definition tpid_first : list string := ["id -> ID"; "pid -> id"].
+Definition tpid_next : list string := ["id -> ID"; "pid -> pid COMMA id"].
+(* the reductions that complete a table-level clause when the next comma / closing parenthesis arrives *)
+Definition item_reds (s : q) : list string :=
+  match s with
+  | TPEnd (TkPk n) => ["pkey -> pkey_statement LP pid RP"; if n then "expr -> expr COMMA constraint pkey" else "expr -> expr COMMA pkey"]
+  | TPEnd (TkUq n) => ["uniq -> UNIQUE LP pid RP"; if n then "expr -> expr COMMA constraint uniq" else "expr -> expr COMMA uniq"]
+  | TPEnd (TkRef n) => ["ref -> ref LP pid RP"; if n then "expr -> expr COMMA constraint foreign ref" else "expr -> expr COMMA foreign ref"]
+  | TRDel n => ["id -> ID"; "ref -> ref ON DELETE id"; if n then "expr -> expr COMMA constraint foreign ref" else "expr -> expr COMMA foreign ref"]
+  | TRUpd n => ["id -> ID"; "ref -> ref ON UPDATE id"; if n then "expr -> expr COMMA constraint foreign ref" else "expr -> expr COMMA foreign ref"]
+  | _ => []
+  end.
+Definition item_end (ps : list string) (l : letter) : option (fout * q) :=
+  if isl l CMl then Some ((ps, "COMMA", Upper), C0 Later)
+  else if isl l RPl then Some ((ps, "RP", Upper), END)
+  else None.
+
 Definition fstep (s : q) (l : letter) : option (fout * q) :=
   match s with
   | T0 => if is l "CREATE" then Some (([], "CREATE", Upper), T1) else None
@@ -338,7 +374,41 @@ Definition fstep (s : q) (l : letter) : option (fout * q) :=
   | N2 => if isl l LPl then Some ((["id -> ID"; "t_name -> id DOT id"; "table_name -> create_table t_name"], "LP", Keep), C0 First)
           else None
   | END => None
-  | C0 c => if is_col_letter l then Some (([], "ID", Keep), C1 c) else None
+  | C0 c => if is_col_letter l then Some (([], "ID", Keep), C1 c)
+            else if ctx_eqb c Later && is l "PRIMARY" then Some (([], "PRIMARY", Upper), TPK0 false)
+            else if ctx_eqb c Later && is l "UNIQUE" then Some (([], "UNIQUE", Upper), TUQ0 false)
+            else if ctx_eqb c Later && is l "FOREIGN" then Some (([], "FOREIGN", Upper), TFK0 false)
+            else if ctx_eqb c Later && is l "CONSTRAINT" then Some (([], "CONSTRAINT", Upper), TCN0)
+            else None
+  | TCN0 => if isG l then Some (([], "ID", Keep), TCN1) else None
+  | TCN1 => if is l "PRIMARY" then Some ((tcons_reds, "PRIMARY", Upper), TPK0 true)
+            else if is l "UNIQUE" then Some ((tcons_reds, "UNIQUE", Upper), TUQ0 true)
+            else if is l "FOREIGN" then Some ((tcons_reds, "FOREIGN", Upper), TFK0 true) else None
+  | TPK0 n => if is l "KEY" then Some (([], "KEY", Upper), TPK1 n) else None
+  | TPK1 n => if isl l LPl then Some ((["pkey_statement -> PRIMARY KEY"], "LP", Keep), TP0 (TkPk n)) else None
+  | TUQ0 n => if isl l LPl then Some (([], "LP", Keep), TP0 (TkUq n)) else None
+  | TFK0 n => if is l "KEY" then Some (([], "KEY", Upper), TFK1 n) else None
+  | TFK1 n => if isl l LPl then Some (([], "LP", Keep), TP0 (TkFk n)) else None
+  | TP0 k => if isG l then Some (([], "ID", Keep), TP1 k) else None
+  | TP1 k => if isl l CMl then Some ((tpid_first, "COMMA", Upper), TPn k)
+             else if isl l RPl then Some ((tpid_first, "RP", Upper), TPEnd k) else None
+  | TPn k => if isG l then Some (([], "ID", Keep), TPm k) else None
+  | TPm k => if isl l CMl then Some ((tpid_next, "COMMA", Upper), TPn k)
+             else if isl l RPl then Some ((tpid_next, "RP", Upper), TPEnd k) else None
+  | TPEnd (TkFk n) => if is l "REFERENCES" then Some ((["foreign -> FOREIGN KEY LP pid RP"], "REFERENCES", Upper), TFR0 n) else None
+  | TPEnd (TkRef n) => if is l "ON" then Some ((["ref -> ref LP pid RP"], "ON", Upper), TRON n false) else item_end (item_reds (TPEnd (TkRef n))) l
+  | TPEnd k => item_end (item_reds (TPEnd k)) l
+  | TFR0 n => if isG l then Some (([], "ID", Keep), TFR1 n) else None
+  | TFR1 n => if isl l LDot then Some ((["id -> ID"], "DOT", Keep), TFRD n)
+              else if isl l LPl then Some ((["id -> ID"; "t_name -> id"; "ref -> REFERENCES t_name"], "LP", Keep), TP0 (TkRef n)) else None
+  | TFRD n => if isG l then Some (([], "ID", Keep), TFR2 n) else None
+  | TFR2 n => if isl l LPl then Some ((["id -> ID"; "t_name -> id DOT id"; "ref -> REFERENCES t_name"], "LP", Keep), TP0 (TkRef n)) else None
+  | TRON n u => if negb u && is l "DELETE" then Some (([], "DELETE", Upper), TROD n)
+                else if is l "UPDATE" then Some (([], "UPDATE", Upper), TROU n) else None
+  | TROD n => if isG l then Some (([], "ID", Keep), TRDel n) else None
+  | TROU n => if isG l then Some (([], "ID", Keep), TRUpd n) else None
+  | TRDel n => if is l "ON" then Some ((["id -> ID"; "ref -> ref ON DELETE id"], "ON", Upper), TRON n true) else item_end (item_reds (TRDel n)) l
+  | TRUpd n => item_end (item_reds (TRUpd n)) l
   | C1 c => if isG l then Some ((["id -> ID"], "ID", Keep), B c PT1) else None
   | SZ0 c two => if isG l then Some (([], "ID", Keep), SZ1 c) else None
   | SZ1 c => if isl l RPl then Some ((["id -> ID"], "RP", Upper), B c PSz1)
@@ -436,4 +506,163 @@ Definition table_of_args (l : list string) : option table :=
     | _ => None
     end
   | _ => None
+  end.
+
+(* ====================================================================================================================
+   Table-level clauses after the columns (property C02):
+     , [CONSTRAINT n] PRIMARY KEY ( c {, c} )  |  , [CONSTRAINT n] UNIQUE ( c {, c} )
+     | , [CONSTRAINT n] FOREIGN KEY ( c {, c} ) REFERENCES [schema.]table ( c {, c} ) [ON DELETE a] [ON UPDATE a] *)
+Definition tnames := (string * list string)%type.
+Definition tnames_list (n : tnames) : list string := fst n :: snd n.
+Record tfk := mkTFk {
+  tf_kw : string; tf_schema : option string; tf_table : string; tf_cols : tnames;
+  tf_ondel : option (string * string * string); tf_onupd : option (string * string * string)
+}.
+Inductive titem :=
+| TIPk (cns : option (string * string)) (kw1 kw2 : string) (cols : tnames)
+| TIUq (cns : option (string * string)) (kw : string) (cols : tnames)
+| TIFk (cns : option (string * string)) (kw1 kw2 : string) (cols : tnames) (r : tfk).
+Record tablec := mkTableC { tc_table : table; tc_items : list titem }.
+
+Definition wf_tcons (c : option (string * string)) : bool :=
+  match c with Some (kw, n) => is_kw kw "CONSTRAINT" && is_plain n | None => true end.
+Definition wf_tnames (norm : bool) (n : tnames) : bool :=
+  forallb (fun w => is_plain w && negb (String.eqb (nms norm w) "ASC") && negb (String.eqb (nms norm w) "DESC")
+                    && negb (String.eqb (nms norm w) "constraint")) (tnames_list n).
+Definition wf_titem (norm : bool) (i : titem) : bool :=
+  match i with
+  | TIPk c p k cols => wf_tcons c && is_kw p "PRIMARY" && is_kw k "KEY" && wf_tnames norm cols
+  | TIUq c u cols => wf_tcons c && is_kw u "UNIQUE" && wf_tnames norm cols
+  | TIFk c f k cols r =>
+      wf_tcons c && is_kw f "FOREIGN" && is_kw k "KEY" && wf_tnames norm cols
+      && is_kw (tf_kw r) "REFERENCES" && match tf_schema r with Some s => is_plain s | None => true end && is_plain (tf_table r)
+      && wf_tnames norm (tf_cols r) && wf_on norm (tf_ondel r) "DELETE" && wf_on norm (tf_onupd r) "UPDATE"
+  end.
+
+Fixpoint tcommas (l : list string) : list lexeme := match l with [] => [] | x :: r => CMx :: W x :: tcommas r end.
+Definition tnames_lexemes (n : tnames) : list lexeme := LPx :: W (fst n) :: tcommas (snd n) ++ [RPx].
+Definition tcons_lexemes (c : option (string * string)) : list lexeme := match c with Some (kw, n) => [W kw; W n] | None => [] end.
+Definition titem_lexemes (i : titem) : list lexeme :=
+  match i with
+  | TIPk c p k cols => tcons_lexemes c ++ [W p; W k] ++ tnames_lexemes cols
+  | TIUq c u cols => tcons_lexemes c ++ [W u] ++ tnames_lexemes cols
+  | TIFk c f k cols r =>
+      tcons_lexemes c ++ [W f; W k] ++ tnames_lexemes cols
+      ++ W (tf_kw r) :: (match tf_schema r with Some s => [W s; DOTL] | None => [] end) ++ [W (tf_table r)]
+      ++ tnames_lexemes (tf_cols r) ++ on_lexemes (tf_ondel r) ++ on_lexemes (tf_onupd r)
+  end.
+Fixpoint tcomma_letters (l : list string) : list letter := match l with [] => [] | _ :: r => CMl :: G :: tcomma_letters r end.
+Definition tnames_letters (n : tnames) : list letter := LPl :: G :: tcomma_letters (snd n) ++ [RPl].
+Definition tcons_letters (c : option (string * string)) : list letter := match c with Some _ => [K "CONSTRAINT"; G] | None => [] end.
+Definition titem_letters (i : titem) : list letter :=
+  match i with
+  | TIPk c _ _ cols => tcons_letters c ++ [K "PRIMARY"; K "KEY"] ++ tnames_letters cols
+  | TIUq c _ cols => tcons_letters c ++ [K "UNIQUE"] ++ tnames_letters cols
+  | TIFk c _ _ cols r =>
+      tcons_letters c ++ [K "FOREIGN"; K "KEY"] ++ tnames_letters cols
+      ++ K "REFERENCES" :: (match tf_schema r with Some _ => [G; LDot] | None => [] end) ++ [G]
+      ++ tnames_letters (tf_cols r) ++ on_letters (tf_ondel r) "DELETE" ++ on_letters (tf_onupd r) "UPDATE"
+  end.
+
+Definition lexemes_c (tc : tablec) : list lexeme :=
+  let t := tc_table tc in
+  W (t_create t) :: W (t_table t) :: (match t_schema t with Some s => [W s; DOTL] | None => [] end) ++ [W (t_name t); LPx]
+  ++ col_lexemes (t_first t) ++ flat_map (fun c => CMx :: col_lexemes c) (t_rest t)
+  ++ flat_map (fun i => CMx :: titem_lexemes i) (tc_items tc) ++ [RPx].
+Definition letters_c (tc : tablec) : list letter :=
+  let t := tc_table tc in
+  K "CREATE" :: K "TABLE" :: (match t_schema t with Some s => [LWord (info_of s); LDot] | None => [] end) ++ [LWord (info_of (t_name t)); LPl]
+  ++ col_letters (t_first t) ++ flat_map (fun c => CMl :: col_letters c) (t_rest t)
+  ++ flat_map (fun i => CMl :: titem_letters i) (tc_items tc) ++ [RPl].
+
+(* the values the grammar hands to the table-level function for a clause: constraint name (if any), the column list and, for a
+   foreign key, the reference entity *)
+Definition tnlist (norm : bool) (n : tnames) : pyval := PList (map (nmv norm) (tnames_list n)).
+Definition tcons_val (norm : bool) (c : option (string * string)) : list pyval :=
+  match c with Some (_, n) => [PDict [("constraint", PDict [("name", nmv norm n)])]] | None => [] end.
+Definition tfk_ref (norm : bool) (r : tfk) : list (string * pyval) :=
+  [("table", nmv norm (tf_table r)); ("columns", tnlist norm (tf_cols r)); ("schema", onm norm (tf_schema r));
+   ("on_delete", on_val norm (tf_ondel r)); ("on_update", on_val norm (tf_onupd r)); ("deferrable_initially", PNone)].
+Definition titem_values (norm : bool) (i : titem) : list pyval :=
+  match i with
+  | TIPk c _ _ cols => tcons_val norm c ++ [PDict [("primary_key", tnlist norm cols)]]
+  | TIUq c _ cols => tcons_val norm c ++ [PDict [("unique_statement", PDict [("columns", tnlist norm cols)])]]
+  | TIFk c _ _ cols r => tcons_val norm c ++ [tnlist norm cols; PDict [("references", PDict (tfk_ref norm r))]]
+  end%list.
+(* the table entity after a clause: p_expression_table / process_constraints_and_refs (Model/Actions.act_expr_table_item)
+   applied to the table so far and the clause values *)
+Definition titem_apply (norm : bool) (d : list (string * pyval)) (i : titem) : res (list (string * pyval)) :=
+  match act_expr_table_item (PDict d :: PStr "," :: titem_values norm i) with
+  | Ok (PDict d') => Ok d'
+  | Ok _ => Unsupported "table item: not a dict"
+  | Raise e => Raise e | Unsupported w => Unsupported w | OutOfFuel => OutOfFuel
+  end.
+Definition table_dict0 (norm : bool) (t : table) : list (string * pyval) :=
+  tdict (onm norm (t_schema t)) (nmv norm (t_name t)) (map (col_dict norm) (t_first t :: t_rest t)).
+Definition denote_c (norm : bool) (tc : tablec) : res (list (string * pyval)) :=
+  fold_left (fun acc i => do d <- acc; titem_apply norm d i) (tc_items tc) (Ok (table_dict0 norm (tc_table tc))).
+(* what `expr -> expr RP` requires of the finished table entity *)
+Definition closes_ok (d : list (string * pyval)) : bool :=
+  negb (is_column_dict d || dict_has d "index_stmt" || dict_has d "check" || dict_has d "enforced" || dict_has d "constraint").
+Definition wf_c (norm : bool) (tc : tablec) : bool :=
+  wf norm (tc_table tc) && forallb (wf_titem norm) (tc_items tc)
+  && match denote_c norm tc with Ok d => closes_ok d | _ => false end.
+
+(* ---------- protocol for clauses: after the table arguments, the word ITEMS, then per clause
+     PK ck cn p k <count> names.. | UQ ck cn u "" <count> names.. | FK ck cn f k <count> names.. rk rs rt <count> rnames.. da db dc ua ub uc *)
+Definition take_tnames (l : list string) : option (tnames * list string) :=
+  match l with
+  | cnt :: r =>
+      match int_of_string cnt with
+      | Some z =>
+          let n := Z.to_nat z in
+          match firstn n r with
+          | x :: xs => if Nat.eqb (List.length (x :: xs)) n then Some ((x, xs), skipn n r) else None
+          | [] => None
+          end
+      | None => None
+      end
+  | [] => None
+  end.
+Definition tcons_of (ck cn : string) : option (string * string) := if String.eqb ck "" then None else Some (ck, cn).
+Fixpoint titems_of_args (fuel : nat) (l : list string) : option (list titem) :=
+  match fuel with
+  | O => None
+  | Datatypes.S f =>
+    match l with
+    | [] => Some []
+    | tag :: ck :: cn :: k1 :: k2 :: rest =>
+      match take_tnames rest with
+      | None => None
+      | Some (cols, rest1) =>
+        if String.eqb tag "PK" then match titems_of_args f rest1 with Some is_ => Some (TIPk (tcons_of ck cn) k1 k2 cols :: is_) | None => None end
+        else if String.eqb tag "UQ" then match titems_of_args f rest1 with Some is_ => Some (TIUq (tcons_of ck cn) k1 cols :: is_) | None => None end
+        else if String.eqb tag "FK" then
+          match rest1 with
+          | rk :: rs :: rt :: rest2 =>
+            match take_tnames rest2 with
+            | Some (rcols, da :: db :: dc :: ua :: ub :: uc :: rest3) =>
+              match titems_of_args f rest3 with
+              | Some is_ => Some (TIFk (tcons_of ck cn) k1 k2 cols (mkTFk rk (onone rs) rt rcols (on_of da db dc) (on_of ua ub uc)) :: is_)
+              | None => None
+              end
+            | _ => None
+            end
+          | _ => None
+          end
+        else None
+      end
+    | _ => None
+    end
+  end.
+Fixpoint split_at_items (l : list string) : list string * list string :=
+  match l with
+  | [] => ([], [])
+  | x :: r => if String.eqb x "ITEMS" then ([], r) else let '(a, b) := split_at_items r in (x :: a, b)
+  end.
+Definition tablec_of_args (l : list string) : option tablec :=
+  let '(targs, iargs) := split_at_items l in
+  match table_of_args targs, titems_of_args (Datatypes.S (List.length iargs)) iargs with
+  | Some t, Some is_ => Some (mkTableC t is_)
+  | _, _ => None
   end.
